@@ -358,12 +358,27 @@ def doc_cases():
   return out
 
 
-def impl_doc(lines, vlevel, version, dialect):
+def impl_doc(lines, vlevel, version, dialect, entry="list"):
   try:
     with guard(5.0):
       try:
-        g = gfapy.Gfa(list(lines), vlevel=vlevel, version=version,
-                      dialect=dialect)
+        if entry == "file":
+          import tempfile, os
+          fd, path = tempfile.mkstemp(prefix="gfamc_c04_", suffix=".gfa",
+                                      dir="/tmp")
+          try:
+            with os.fdopen(fd, "w") as f:
+              f.write("".join(l + "\n" for l in lines))
+            g = gfapy.Gfa.from_file(path, vlevel=vlevel, version=version,
+                                    dialect=dialect)
+          finally:
+            os.unlink(path)
+        elif entry == "string":
+          g = gfapy.Gfa("\n".join(lines), vlevel=vlevel, version=version,
+                        dialect=dialect)
+        else:
+          g = gfapy.Gfa(list(lines), vlevel=vlevel, version=version,
+                        dialect=dialect)
         g.validate()
         for l in g.lines:
           l.validate()
@@ -394,15 +409,27 @@ def work_docs(chunk):
       got = impl_doc(lines, vlevel, version, dialect)
       res["outcomes"].add("doc:" + got.split(":")[0] + ("+" if want else "-"))
       cl = None
+      cx = ctxname
       if got == "accept" and not want:
         cl = "accepts-ungrammatical"
       elif (got.startswith("reject") or got.startswith("foreign")) and want:
         cl = "rejects-grammatical"
       elif got.startswith("third"):
         cl = "accepted-then-" + got[6:]
+      if cl is None:
+        # the verdict does not depend on the entry point (file, one string)
+        for entry in ("file", "string"):
+          res["evaluations"] += 1
+          other = impl_doc(lines, vlevel, version, dialect, entry)
+          if other.split(":")[0] != got.split(":")[0]:
+            cl = "verdict-depends-on-entry-point"
+            cx = ctxname + "@" + entry
+            got = "{} as a list of lines, {} through {}".format(got, other,
+                                                                entry)
+            break
       if cl:
         text = "\n".join(lines)
-        k = (cl, ctxname, vlevel)
+        k = (cl, cx, vlevel)
         old = found.get(k)
         if old is None or (len(text), text) < (len(old[0]), old[0]):
           found[k] = (text, version, got, want, dialect)
@@ -506,6 +533,13 @@ def replay(w, ctx):
     else:
       got = impl_line(w["text"], vlevel, w["version"])
     cl = w["clause"]
+    if cl == "verdict-depends-on-entry-point":
+      entry = w["context"].rsplit("@", 1)[1]
+      other = impl_doc(lines, vlevel, w["version"], w["dialect"], entry)
+      if other.split(":")[0] == got.split(":")[0]:
+        return []
+      got = "{} as a list of lines, {} through {}".format(got, other, entry)
+      continue
     bad = ((cl == "accepts-ungrammatical" and got == "accept") or
            (cl == "rejects-grammatical" and (got.startswith("reject") or
                                              got.startswith("foreign"))) or
